@@ -21,7 +21,11 @@ def gen_cases(chk, n, rules=None, families=None, label='count', tweak=None):
         rule = rng.choice(rules) if rules else None
         o = cd.gen_options(rng, rule=rule)
         fam = rng.choice(families) if families else None
-        e = cd.gen_election(rng, family=fam)
+        eq = cd.exact_quota_params(o) if fam == 'exactquota' else None
+        if fam == 'exactquota':
+            e = cd.gen_exact_quota(rng, *eq) if eq else cd.gen_election(rng, family='nearquota')
+        else:
+            e = cd.gen_election(rng, family=fam)
         if o['rule'] == 'mpls':
             k = rng.random()
             if k < 0.35: e = cd.gen_writein_election(rng)
@@ -32,7 +36,8 @@ def gen_cases(chk, n, rules=None, families=None, label='count', tweak=None):
     return cases
 
 def run(chk, ctx, scope, oracle_names, n_quick, n_thorough, rules=None, families=None, tweak=None, timeout=15,
-        sig_extra=None, known_case_filter=None):
+        sig_extra=None, known_case_filter=None, extra=()):
+    """extra: further case groups (label, n_quick, n_thorough, rules, families) generated after the main group"""
     quick = ctx['tier'] == 'quick'
     n = n_quick if quick else n_thorough
     corpus = load_corpus(chk.pid)
@@ -41,10 +46,12 @@ def run(chk, ctx, scope, oracle_names, n_quick, n_thorough, rules=None, families
         if 'blt' in k:
             corpus.insert(0, (k['blt'], k['options'], 'known:' + k['id']))
     cases = [(b, o) for b, o, _ in corpus] + gen_cases(chk, n, rules, families, tweak=tweak)
+    for lab, nq, nt, rl, fm in extra:
+        cases += gen_cases(chk, nq if quick else nt, rl, fm, label=lab, tweak=tweak)
     use_model = ctx['model'] is not None
     res = cd.run_cases(cases, oracle_names=oracle_names, timeout=timeout, use_model=use_model)
     dist = collections.Counter(); fam = collections.Counter()
-    notexp = 0; ndis = 0
+    notexp = 0; ndis = 0; dis_rule_set = set()
     stats_tot = collections.Counter()
     for (blt, o), r in zip(cases, res):
         chk.count()
@@ -76,12 +83,28 @@ def run(chk, ctx, scope, oracle_names, n_quick, n_thorough, rules=None, families
                 chk.validated()
                 a, b = cd.project(r['trace'], scope), cd.project(m, scope)
                 if a != b:
-                    ndis += 1
+                    ndis += 1; dis_rule_set.add(o['rule'])
                     d = cd.first_diff(a, b)
                     ctx['broken'].append("correspondence count/%s: %s" % (scope, json.dumps(d)[:400]))
                     if ndis <= 2:
                         chk.cov.setdefault('disagreements', []).append(dict(blt=blt, options=o, first_difference=d))
                         ctx.setdefault('disagreement_cases', []).append((blt, o, d))
+    # the correspondence broke and no oracle fired: search for a failing input among more cases of the rules that disagreed
+    if ndis and not chk.violations and oracle_names:
+        dis_rules = sorted({o['rule'] for _, o, _ in ctx.get('disagreement_cases', [])} | set(dis_rule_set))
+        fams = list(families or []) + ['coalition', 'cross', 'tie', 'nearquota']
+        more = gen_cases(chk, 4000 if quick else 40000, dis_rules, fams, label='search-on-break', tweak=tweak)
+        res2 = cd.run_cases(more, oracle_names=oracle_names, timeout=timeout, use_model=False)
+        nhit = 0
+        for (blt, o), r in zip(more, res2):
+            for name, v in r['oracle']:
+                if not isinstance(v, dict): continue
+                sig = dict(v['sig'])
+                if sig_extra: sig.update(sig_extra(blt, o, r, v))
+                nhit += 1
+                chk.violation(v['kind'] + ": " + v['detail'][:300], dict(blt=blt, options=o, oracle=name, kind=v['kind'], detail=v['detail'], status=r['status'],
+                                                                         found_by='search after the correspondence broke'), signature=sig)
+        chk.cov['search_on_break'] = dict(rules=dis_rules, cases=len(more), oracle_hits=nhit)
     chk.cov['input_distribution'] = {"%s/%s/%s" % k: v for k, v in sorted(dist.items())}
     chk.cov['trace_totals'] = dict(stats_tot)
     chk.cov['not_explored_budget'] = notexp
